@@ -27,6 +27,23 @@ Fixpoint children_first (es : list (nat * nat)) : Prop :=
   | (p, c) :: r => p <> c /\ (forall q d, In (q, d) r -> q <> c) /\ children_first r
   end.
 
+(** executable version, run by the correspondence harness on every generated input *)
+Fixpoint children_firstb (es : list (nat * nat)) : bool :=
+  match es with
+  | [] => true
+  | (p, c) :: r => negb (Nat.eqb p c) && forallb (fun e : nat * nat => negb (Nat.eqb (fst e) c)) r
+                   && children_firstb r
+  end.
+
+Lemma children_firstb_spec es : children_firstb es = true -> children_first es.
+Proof. induction es as [|[p c] r IH]; intro H; [exact I|]. cbn [children_firstb children_first] in *.
+  apply andb_prop in H. destruct H as [H H3]. apply andb_prop in H. destruct H as [H1 H2].
+  split; [|split].
+  - intro E. subst. rewrite Nat.eqb_refl in H1. discriminate.
+  - intros q d Hin E. subst. rewrite forallb_forall in H2. specialize (H2 (c, d) Hin).
+    cbn in H2. rewrite Nat.eqb_refl in H2. discriminate.
+  - apply IH; exact H3. Qed.
+
 Definition sat (es : list (nat*nat)) (t : nat -> T) :=
   forall p c, In (p, c) es -> le (bump (t c)) (t p).
 Definition pointwise_le (s t : nat -> T) := forall u, le (s u) (t u).
